@@ -977,6 +977,10 @@ func c07(c *core.Ctx) {
 		c.Floor("reads/Account.newestRecords", n, 1)
 	})
 
+	c.Clause("C07.11", "two premises undo relies on: the storage cache stores the value it is given, so the nil an undo writes stays nil for the readers that test for absence; a self-destruct is journalled at most once per account, because undoSuicide can only clear the flag")
+	c.Run("nil-stays-nil", func() { c07NilStaysNil(c) })
+	c.Run("suicide-journalled-once", func() { c07SuicideJournalledOnce(c) })
+
 	c.NotDecidedf("that undo restores the same VALUE (only that it writes the same locations from the recorded OldVal); deep-copy aliasing of OldVal; nesting/interleaving behaviour of snapshots as histories; equality of replayed and executed state")
 }
 
